@@ -312,22 +312,24 @@ class PreloadsSim(purity.PuritySim):
             if len(a) != len(b):
                 bad = f"structure differs ({len(a)} vs {len(b)} numeric leaves)"
             else:
+                # one common scale for all leaves of an output (a dict of per-object images): the error of a solve is relative to the
+                # size of the whole solution, not of its smallest component.  Absolute floors: inputs are of order one, so values
+                # below 1e-6 (exact-type outputs) / 1e-3 (solution-dependent outputs) are rounding noise.
+                all_scale = max([float(np.max(np.abs(y))) for y in b if y.size] + [0.0])
+                floor = 1e-3 if kind_tol == "cond" else 1e-6
+                scale = max(all_scale, floor)
                 for x, y in zip(a, b):
                     if x.shape != y.shape:
                         bad = f"shape {x.shape} vs {y.shape}"
                         break
                     if x.size == 0:
                         continue
-                    scale = max(float(np.max(np.abs(y))), 1e-300)
+                    err = float(np.max(np.abs(x - y)))
                     if kind_tol == "logdet":
                         n = max(1, int(self.world.env[target].total_params) if hasattr(self.world.env[target], "total_params") else 1)
-                        lim = max(1e-9 * n * max(1.0, scale), 1e2 * n * c * 2.2e-16)
-                        err = float(np.max(np.abs(x - y)))
+                        lim = max(1e-9 * n * max(1.0, all_scale), 1e2 * n * c * 2.2e-16)
                     else:
-                        # relative to the reference's max-abs, with an absolute floor: inputs are of order one, so a value of
-                        # magnitude < 1e-6 (e.g. a regularization term of an all-zero solution, 1e-34) is rounding noise
-                        lim = tol * max(scale, 1e-6)
-                        err = float(np.max(np.abs(x - y)))
+                        lim = tol * scale
                     if not (err <= lim):
                         bad = f"max abs difference {err:.3e} > {lim:.3e} (scale {scale:.3e})"
                         break
